@@ -200,7 +200,7 @@ def rename (s : MState) (now : Int) (key dst : Bytes) : R :=
   match getMeta s key with
   | none => (s, .err true)
   | some m =>
-    if key = dst then (s, .hang) else       -- second Lock() of the same record by the same tx
+    if key = dst then (s, .err false) else   -- RENAME a a is a no-op
     let (s, dok) := writeKey s now dst none
     let s := delKey s key
     let s :=
@@ -348,14 +348,14 @@ def get (s : MState) (now : Int) (key : Bytes) : R :=
   | none => (s, .panic)
   | some v => (s, .bytes v)
 
-/-- Incr / IncrBy / Decr / DecrBy. `swallow`: IncrBy returns nil instead of the parse error. -/
-def addInt (s : MState) (now : Int) (key : Bytes) (delta : Int) (neg swallow : Bool) : R :=
+/-- Incr / IncrBy / Decr / DecrBy: a non-numeric value or an int64 overflow is an error and changes nothing -/
+def addInt (s : MState) (now : Int) (key : Bytes) (delta : Int) (neg : Bool) (_swallow : Bool := false) : R :=
   let (s, _) := writeKey s now key (some .strNil)
   match asStr s key with
   | none => (s, .panic)
   | some v =>
     match (if neg then DsStr.decr v delta else DsStr.incr v delta) with
-    | none => (s, .many [.int 0, .err (!swallow)])
+    | none => (s, .many [.int 0, .err true])
     | some (v', n) =>
       let s := setVal s key (strVal v')
       (emit (signal s key) (opSet key (formatInt n) false), .many [.int n, .err false])
@@ -465,9 +465,7 @@ def getRange (s : MState) (now : Int) (key : Bytes) (start stop : Int) : R :=
   match asStr s key with
   | none => (s, .panic)
   | some v =>
-    match DsStr.getRange v start stop with
-    | none => (s, .panic)
-    | some r => (s, .bytes r)
+    (s, .bytes (DsStr.getRange v start stop))
 
 def strLen (s : MState) (now : Int) (key : Bytes) : R :=
   let (s, ok) := readKey s now key
@@ -593,22 +591,21 @@ def lrange (s : MState) (now : Int) (key : Bytes) (start stop : Int) : R :=
   | none => (s, .panic)
   | some l => (s, .blist ((DsList.lrange l start stop).map some))
 
-/-- LPopRPush (left = true) / RPopLPush. The final `return v[0]` panics when nothing was popped. -/
+/-- LPopRPush (left = true) / RPopLPush; nil when nothing was popped. With src = dst the second
+    lookup reuses the lock this call already holds (or finds the key gone and recreates it). -/
 def rotate (left : Bool) (s : MState) (now : Int) (src dst : Bytes) : R :=
   let (s, ok) := writeKey s now src none
-  if !ok then (s, .panic) else                 -- v stays nil/empty ⇒ v[0] panics
+  if !ok then (s, .bytes none) else
   match asList s src with
   | none => (s, .panic)
   | some l =>
     let (l', r) := if left then DsList.lpop l 1 else DsList.rpop l 1
     match r with
-    | none => (s, .panic)
+    | none => (s, .bytes none)
     | some vs =>
       let s := setVal s src (.list l')
       let s := if DsList.llen l' = 0 then delKey s src else s
       let s := signal s src
-      -- src = dst while still indexed: the second lock on the same record never returns
-      if src = dst ∧ (getMeta s src).isSome then (s, .hang) else
       let (s, _) := writeKey s now dst (some (.list DsList.empty))
       match asList s dst with
       | none => (s, .panic)
